@@ -1105,8 +1105,18 @@ func init() {
 	s1 := func(name string, f func(string) string) {
 		reg("path/filepath."+name, func(fr *frame, a []value) value { return f(mustString(a[0], "filepath."+name)) })
 	}
-	s1("ToSlash", filepath.ToSlash)
-	s1("FromSlash", filepath.FromSlash)
+	for _, n := range []string{"ToSlash", "FromSlash"} {
+		name := n
+		reg("path/filepath."+name, func(fr *frame, a []value) value {
+			if cs, ok := a[0].(string); ok {
+				if name == "ToSlash" {
+					return filepath.ToSlash(cs)
+				}
+				return filepath.FromSlash(cs)
+			}
+			return a[0] // the separator is '/' here: identity
+		})
+	}
 	s1("Dir", filepath.Dir)
 	s1("Base", filepath.Base)
 	s1("Clean", filepath.Clean)
@@ -1114,6 +1124,25 @@ func init() {
 	reg("path/filepath.IsAbs", func(fr *frame, a []value) value { return filepath.IsAbs(mustString(a[0], "filepath.IsAbs")) })
 	reg("path/filepath.Join", func(fr *frame, a []value) value {
 		var parts []string
+		sym := false
+		for _, e := range a[0].([]value) {
+			if _, ok := e.(string); !ok {
+				sym = true
+			}
+		}
+		if sym {
+			// symbolic path elements: joined with separators but not cleaned (the only consumers are
+			// the virtual file system of a harness and messages that echo the path)
+			fr.i.stubsHit["filepath.Join with symbolic elements = concatenation without cleaning"]++
+			var out value = ""
+			for k, e := range a[0].([]value) {
+				if k > 0 {
+					out = fr.i.strConcat(out, "/")
+				}
+				out = fr.i.strConcat(out, e)
+			}
+			return out
+		}
 		for _, e := range a[0].([]value) {
 			parts = append(parts, mustString(e, "filepath.Join"))
 		}
